@@ -535,9 +535,10 @@ def bad_arity_stream(ctx, world):
                     obs = "value"
         except UnknownCodecError:
             obs = "unknown"
-        except DecodeError as e:
-            obs = "unsupported" if ("subtypes" in str(e) or "unpack" in str(e)) \
-                else "decode-error"
+        except DecodeError:
+            # bad arity reached, or junk bytes rejected by a strict read: the
+            # message text is not looked at; the model must not return a value
+            obs = "decode-error"
         except (Exception, core.ImplTimeout) as e:   # noqa
             obs = "exc:" + type(e).__name__
         lines.append("dec %s %s" % (nh, cc.hexb(data)))
@@ -571,9 +572,11 @@ def bad_arity_stream(ctx, world):
                     (w.startswith("value") and lean != "value"
                      and lean not in ("unknown", "unsupported")):
                 continue
-            if w == "decode-error" or w.startswith("exc:"):
+            if w.startswith("exc:"):
                 continue       # junk bytes: Python's lenient reads
-            if w.startswith("value ") and lean == "value":
+            if w == "decode-error":
+                ok = lean == "unsupported"   # DecodeError <-> bad arity reached
+            elif w.startswith("value ") and lean == "value":
                 try:
                     ok = w[6:] == " ".join(cc.nan_normalise(cc.canon(
                         o.split(" ")[2:])))
